@@ -330,3 +330,68 @@ Lemma crash_seen_example :
   | None => False
   end.
 Proof. vm_compute. repeat split; reflexivity. Qed.
+
+(* ---- the first run of a job: a row is deleted only after its seed's own URL was requested ----
+   Before the first restart the seen-store holds nothing that this run did not put there itself, so "skipped as seen" is not
+   a way to a finish report: every deleted row's seed went through SCapture or SFail (a request was sent, and it ended in a
+   complete record or in a failure for good) - whether the run is still going, or was killed or stopped. *)
+Definition no_restart (ls : list slabel) : bool :=
+  forallb (fun l => match l with SRestart => false | _ => true end) ls.
+
+Lemma down_only_restart s l s' : s_up s = false -> sstep s l = Some s' -> l = SRestart.
+Proof. intros U HS. destruct l; simpl in HS; rewrite U in HS; simpl in HS; try discriminate. reflexivity. Qed.
+
+Lemma down_no_restart_nil ls : forall s s', s_up s = false -> srun s ls = Some s' -> no_restart ls = true -> ls = [].
+Proof.
+  destruct ls as [|l r]; intros s s' U H N; [reflexivity|]. simpl in H.
+  destruct (sstep s l) as [s1|] eqn:E; [|discriminate].
+  rewrite (down_only_restart _ _ _ U E) in N. discriminate.
+Qed.
+
+Lemma interrupt_keeps s l s' : sstep s l = Some s' -> (l = SCrash \/ l = SStop) ->
+  s_up s' = false /\ s_deleted s' = s_deleted s /\ s_warc s' = s_warc s /\ s_failed s' = s_failed s.
+Proof.
+  intros HS [L|L]; subst l; simpl in HS; cond HS; inversion HS; subst; simpl; auto.
+Qed.
+
+(* a history without a restart is an uninterrupted one, possibly followed by ONE kill or stop *)
+Lemma no_restart_shape ls : forall s s', srun s ls = Some s' -> no_restart ls = true ->
+  interrupts ls = false \/
+  exists ls0 s0 x, ls = ls0 ++ [x] /\ interrupts ls0 = false /\ srun s ls0 = Some s0 /\ sstep s0 x = Some s'
+                   /\ (x = SCrash \/ x = SStop).
+Proof.
+  induction ls as [|l r IH]; intros s s' H N; [left; reflexivity|].
+  simpl in H. destruct (sstep s l) as [s1|] eqn:E; [|discriminate].
+  simpl in N. apply andb_prop in N. destruct N as [N1 N2].
+  assert (Hl : (l = SCrash \/ l = SStop) \/ (match l with SCrash | SStop => false | _ => true end) = true)
+    by (destruct l; auto).
+  destruct Hl as [Hl|Hl].
+  - destruct (interrupt_keeps _ _ _ E Hl) as (U & _).
+    pose proof (down_no_restart_nil r _ _ U H N2) as R. subst r. simpl in H. inversion H; subst.
+    right. exists [], s, l. repeat split; auto.
+  - destruct (IH _ _ H N2) as [I|(ls0 & s0 & x & A & B & C & D & F)].
+    + left. unfold interrupts in *. simpl. rewrite I. destruct l; simpl in *; auto; discriminate.
+    + right. exists (l :: ls0), s0, x. subst r. repeat split; auto.
+      * unfold interrupts in *. simpl. rewrite B. destruct l; simpl in *; auto; discriminate.
+      * simpl. rewrite E. exact C.
+Qed.
+
+Theorem first_run_deleted_was_fetched : forall sc ids ls s,
+  srun (sinit sc ids) ls = Some s -> no_restart ls = true ->
+  forall i, In i (s_deleted s) -> In i (s_warc s) \/ In i (s_failed s).
+Proof.
+  intros sc ids ls s H N i Hi.
+  destruct (no_restart_shape ls _ _ H N) as [I|(ls0 & s0 & x & A & B & C & D & F)].
+  - exact (deleted_captured_uninterrupted sc ids ls s H I i Hi).
+  - destruct (interrupt_keeps _ _ _ D F) as (_ & Ed & Ew & Ef). rewrite Ew, Ef. rewrite Ed in Hi.
+    exact (deleted_captured_uninterrupted sc ids ls0 s0 C B i Hi).
+Qed.
+
+(* non-vacuity: two rows, both fetched (one captured, one failed for good), both deleted, then a kill *)
+Lemma first_run_example :
+  exists s, srun (sinit true [1; 2])
+     [SClaim [1; 2]; SInsert 1; SInsert 2; SPre 1; SPre 2; SCapture 1; SFail 2; SFinish 1; SFinish 2; SDelete [1; 2]; SCrash] = Some s
+  /\ s_deleted s = [1; 2] /\ s_warc s = [1] /\ s_failed s = [2].
+Proof. eexists. split; [vm_compute; reflexivity|]. simpl. repeat split; reflexivity. Qed.
+
+(* ... and the hypothesis is needed: after a restart a row CAN be deleted without a request (seen_write_ahead_witness) *)
